@@ -410,13 +410,29 @@ KINDS = [
 def _uer(m, fname, exclude_repeat=True):
     """transfer fields read before written on some path of a continuation handler (reads guarded by
     Blk.State == BLK_REPEAT are re-entries and excluded)"""
+    return _uer2(m, fname, exclude_repeat, 0)[0]
+
+
+def _uer2(m, fname, exclude_repeat, depth):
+    """-> (fields read before written on some path, fields written on every path to the exit); helpers the
+    rule tables do not know are folded in (their exposed reads count at the call, their must-writes after it)"""
     g = m.cfg(fname)
     REP = m.enum('BLK_REPEAT')
+    helpers = {}
+    if depth < 3:
+        for node in g.nodes:
+            if node.x is not None:
+                for c in walk(node.x):
+                    if c.k == 'call' and callee_name(c) and m.is_new_helper(callee_name(c)) and callee_name(c) not in helpers:
+                        helpers[callee_name(c)] = _uer2(m, callee_name(c), exclude_repeat, depth + 1)
 
     def tr(node, s):
         if node.x is None:
             return s
         out = s
+        for c in walk(node.x):
+            if c.k == 'call' and callee_name(c) in helpers:
+                out = out | helpers[callee_name(c)][1]
         for (p, rhs, n) in flow.assigned_paths(node.x):
             l = strip(n.kids[0]) if n.k != 'var' else None
             if l is not None and l.k == 'mem' and l.field in TRANSFER and n.k == 'bin' and n.op == '=':
@@ -425,6 +441,12 @@ def _uer(m, fname, exclude_repeat=True):
     IN, OUT = flow.forward(g, frozenset(), tr, lambda a, b: a & b)
     facts = m.facts(fname)
     uer = {}
+    must = None
+    for (pred, lab) in g.exit.pred:
+        st = OUT.get(pred)
+        if st is not None:
+            must = st if must is None else (must & st)
+    must = must or frozenset()
     for node in g.nodes:
         if node.x is None or IN.get(node.id) is None:
             continue
@@ -445,7 +467,11 @@ def _uer(m, fname, exclude_repeat=True):
         for n in walk(node.x):
             if n.k == 'mem' and n.field in TRANSFER and id(n) not in plain and n.field not in IN[node.id]:
                 uer.setdefault(n.field, node.line)
-    return uer
+            elif n.k == 'call' and callee_name(n) in helpers:
+                for f, ln in helpers[callee_name(n)][0].items():
+                    if f not in IN[node.id]:
+                        uer.setdefault(f, ln)
+    return uer, must
 
 
 def defined_before_used(ctx):
